@@ -267,5 +267,9 @@ def templates():
     ]
     for k, specs in enumerate(bc):
         add('broadcast-arrays-%d' % k, 'broadcast_arrays', cost=1, specs=specs)
+    # a labelled length-1 dimension owned by one array, the others lack it: in every argument order
+    S, P, Q = [['x', 'y'], [2, 1]], [['x'], [2]], [['z'], [2]]
+    for k, specs in enumerate(([S, P, Q], [P, Q, S], [P, S, Q], [S, P], [P, S], [Q, S], [[['y'], [1]], [[], []]], [[[], []], [['y'], [1]], P])):
+        add('broadcast-arrays-singleton-%d' % k, 'broadcast_arrays', cost=1, specs=specs)
     add('broadcast-arrays-mismatch', 'broadcast_mismatch', cost=1)
     return ts
